@@ -65,11 +65,16 @@ def signature(r, e, b):
     return "C09:%s:%s" % (why, b["path"])
 
 
-def validate(ctx, name, trace, events):
-    """Trace_ShardView over one trace (parallel parts starting at build events)."""
+def validate_raw(ctx, name, trace):
+    """Trace_ShardView over one trace (parallel parts starting at build events); no verdicts here."""
+    events = vk.read_ndjson(trace)
     acc, rej = ctx.validate_trace_sharded("Trace_ShardView", "Trace_ShardView.cfg", trace, header_lines=1,
                                           shards=ctx.pick(6, 8), name="tlcs_" + name, timeout=3000,
-                                          group_start=lambda ln: ln.startswith('{"ev":"build"') or '"ev":"build"' in ln[:200])
+                                          group_start=lambda ln: '"ev":"build"' in ln[:200])
+    return events, rej
+
+
+def verdicts(ctx, name, events, rej):
     bad_builds = set()
     for r in rej:
         if not isinstance(r, dict) or "line" not in r:
@@ -133,7 +138,11 @@ def run(ctx):
     ctx.sample({"script": {k: chosen[len(chosen) // 2][k] for k in ("path", "sizeMax", "trigramMax", "docs")},
                 "predicted": [{"name": text(v["name"]), "reason": v["reason"]} for v in chosen[len(chosen) // 2]["view"]]})
 
-    t_rep = drive(ctx, binp, "TestVerif_C09_Replay", "trace_rep.ndjson", env={"VERIF_IN": inp})
+    # the generated trace is validated while the scripts are replayed
+    with concurrent.futures.ThreadPoolExecutor(max_workers=2) as ex:
+        gen_v = ex.submit(validate_raw, ctx, "gen", t_gen)
+        t_rep = drive(ctx, binp, "TestVerif_C09_Replay", "trace_rep.ndjson", env={"VERIF_IN": inp})
+        validated = {"gen": gen_v.result(), "rep": validate_raw(ctx, "rep", t_rep)}
 
     # ------------------------------------------------------------ V: trace validation
     total = 0
@@ -143,10 +152,10 @@ def run(ctx):
     all_bad = {}
     families = collections.Counter()
     probes = collections.Counter()
-    for name, trace in (("gen", t_gen), ("rep", t_rep)):
-        events = vk.read_ndjson(trace)
+    for name in ("gen", "rep"):
+        events, rej = validated[name]
         total += len(events) - 1
-        all_bad[name] = validate(ctx, name, trace, events)
+        all_bad[name] = verdicts(ctx, name, events, rej)
         for i, e in enumerate(events):
             if e["ev"] in ("symsub", "tri"):
                 probes[e["ev"]] += 1
